@@ -117,7 +117,7 @@ INSERTS = ["zq9", "AS zq9", "AS zq9 (zc1, zc2)", '"Zq 9"', 'AS "Zq 9"', "(zq9)",
            "zq9 zq8", "(424242)", "= zq9", "AS 'zq9lit'", "ON zq9 = zq8", "USING (zq9)", "IN (424242)", "NOT NULL", "DEFAULT 424242", "COMMENT 'zq9lit'",
            "EXCEPT (zq9)", "EXCLUDE (zq9)", "IGNORE NULLS", "FILTER (WHERE zq9 > 424242)", "OVER (ORDER BY zq9)", "WITHIN GROUP (ORDER BY zq9)",
            "ORDER BY zq9", "LIMIT 424242", "OFFSET 424242", "WHERE zq9 = 424242", "PARTITION (zq9)", "WITH (zq9 = 424242)", "COLLATE zq9", "AT TIME ZONE 'zq9lit'",
-           "START WITH zq9 = 424242", "CONNECT BY zq9 = PRIOR zq8", "START WITH prior(zq9) = 424242", "START WITH PRIOR zq9 = 424242", "AND prior(zq9) = 424242", "HAVING zq9 > 424242", "GROUP BY zq9", "QUALIFY zq9 = 424242", "RETURNING zq9", "CASCADE", "IF EXISTS"]
+           "START WITH zq9 = 424242", "CONNECT BY zq9 = PRIOR zq8", "START WITH prior(zq9) = 424242", "START WITH PRIOR zq9 = 424242", "AND prior(zq9) = 424242", "HAVING zq9 > 424242", "GROUP BY zq9", "QUALIFY zq9 = 424242", "RETURNING zq9", "CASCADE", "IF EXISTS", "DEFAULT 'zq9lit' ON EMPTY", "DEFAULT 'zq9lit' ON ERROR", "OFFSET 424242 ROWS", "STORED AS INPUTFORMAT 'zq9lit' OUTPUTFORMAT 'zq8lit'"]
 
 
 def insert_cases(run, n=None):
